@@ -55,7 +55,7 @@ func c9RunInternal(c c9Case) (res c9Out) {
 	ctx, cancel := context.WithCancel(context.Background())
 	defer cancel()
 	pc := &shared.PlannerContext{From: time.Unix(0, c.From), To: time.Unix(0, c.To), Limit: c.Limit, Ctx: ctx,
-		CancelCtx: func() {}, Step: time.Second}
+		CancelCtx: func() {}, Step: time.Second, OrderASC: c.Asc}
 	ch, err := top.Process(pc, nil)
 	if err != nil {
 		res.Skip = "process: " + err.Error()
@@ -305,9 +305,14 @@ func c9EngCanonImpl(canon string) string {
 // last one), one entry per message, or random cuts with empty messages
 func c9EngBatches(r *h.Rng, rows []c9EngRow) [][]c9Entry {
 	flat := make([]c9Entry, 0, len(rows)+1)
+	fpIds := map[string]uint64{} // the reference interpreter's stand-in for cityHash64 is not confined to 64 bits
 	for _, row := range rows {
-		fp, _ := strconv.ParseInt(row.Fp, 10, 64)
-		flat = append(flat, c9Entry{Ts: row.Ts, Fp: uint64(fp), Labels: row.Labels, Msg: row.Line})
+		fp, ok := fpIds[row.Fp]
+		if !ok {
+			fp = uint64(len(fpIds) + 1)
+			fpIds[row.Fp] = fp
+		}
+		flat = append(flat, c9Entry{Ts: row.Ts, Fp: fp, Labels: row.Labels, Msg: row.Line})
 	}
 	flat = append(flat, c9Entry{Err: "eof"})
 	var bs [][]c9Entry
@@ -630,7 +635,7 @@ func c9Engines(r *h.Result, rng *h.Rng, n int, fixed []*c9EngCase) error {
 			}
 		}
 		runs = append(runs, c9Case{Query: p.c.query(p.c.Cut, len(p.c.Stages)), Mode: "internal", From: p.c.Ctx.From, To: p.c.Ctx.To,
-			Limit: p.c.Ctx.Limit, Batches: c9EngBatches(rng, pre)})
+			Limit: p.c.Ctx.Limit, Asc: p.c.Ctx.Asc, Batches: c9EngBatches(rng, pre)})
 		wants = append(wants, c9EngCanonRows(all))
 		owners = append(owners, p)
 		r.Count(fmt.Sprintf("engines:prefix-stages:%d", p.c.Cut))
